@@ -200,7 +200,10 @@ func Compare(a Version, b Version) int {
 // dpkg(1), and even returns roughly the same error messages.
 func Parse(input string) (Version, error) {
 	result := Version{}
-	return result, parseInto(&result, input)
+	if err := parseInto(&result, input); err != nil {
+		return Version{}, err
+	}
+	return result, nil
 }
 
 func parseInto(result *Version, input string) error {
